@@ -89,6 +89,74 @@ def sibling_templates(x, y, n=0):
     ]
 
 
+def retransmit_templates(x, n=0, y=None):
+    """A separate CONFIRMABLE response that the peer sends again (same message ID: the acknowledgement was lost) after the
+    exchange has ended and its token has been taken by a later request (sequential re-use is legal): the copy is the
+    earlier message, it must be recognised by its message ID and reach nobody; the later request gets its own answer."""
+    m = 41000 + 10 * n
+    if not y or y == x:
+        y = x[:-2] + ("01" if x[-2:] != "01" else "02")      # a distinct token of the same length
+    return [
+        # bare ACK, separate response, re-use, copy before the real (piggybacked) answer
+        "scn udp 0 do:1:%s:con peer:ack:-:@1:0 peer:con:%s:%d:forA do:2:%s:con peer:con:%s:%d:forA peer:pig:%s:@2:forB settle" % (x, x, m, x, x, m, x),
+        # the response itself acknowledges the request; copy after the new request's empty ACK, real answer separate
+        "scn udp 0 do:1:%s:con peer:con:%s:%d:forA do:2:%s:con peer:ack:-:@2:0 peer:con:%s:%d:forA peer:con:%s:%d:forB settle" % (x, x, m, x, x, m, x, m + 1),
+        # non-confirmable requests, confirmable responses; two copies
+        "scn udp 0 do:1:%s:non peer:con:%s:%d:forA do:2:%s:non peer:con:%s:%d:forA peer:con:%s:%d:forA peer:non:%s:%d:forB settle" % (x, x, m, x, x, m, x, m, x, m + 1),
+        # copy after the second exchange has ended, a third request re-uses the token again
+        "scn udp 0 do:1:%s:con peer:ack:-:@1:0 peer:con:%s:%d:forA do:2:%s:con peer:pig:%s:@2:forB peer:con:%s:%d:forA do:3:%s:non peer:con:%s:%d:forA peer:non:%s:%d:forC settle" % (x, x, m, x, x, x, m, x, x, m, x, m + 1),
+        # with block-wise transfer enabled
+        "scn udp 1 do:1:%s:con peer:ack:-:@1:0 peer:con:%s:%d:forA do:2:%s:non peer:con:%s:%d:forA peer:non:%s:%d:forB settle" % (x, x, m, x, x, m, x, m + 1),
+        # another request (token y) outstanding meanwhile; both separate responses are sent again after both tokens were re-used
+        "scn udp 0 do:1:%s:con do:2:%s:non peer:ack:-:@1:0 peer:con:%s:%d:forB peer:con:%s:%d:forA do:3:%s:non do:4:%s:con "
+        "peer:con:%s:%d:forA peer:con:%s:%d:forB peer:pig:%s:@4:forD peer:non:%s:%d:forC settle"
+        % (x, y, y, m + 2, x, m, x, y, x, m, y, m + 2, y, x, m + 3),
+        # the later request is cancelled / the copy arrives with nothing outstanding: nothing may be delivered either
+        "scn udp 0 do:1:%s:con peer:con:%s:%d:forA peer:con:%s:%d:forA do:2:%s:con peer:con:%s:%d:forA cancel:2 peer:con:%s:%d:forA settle" % (x, x, m, x, m, x, x, m, x, m),
+    ]
+
+
+def gen_reuse(rng):
+    """Sequential exchanges over a small pool of tokens on the datagram transport; every separate confirmable response may be
+    sent again (same message ID) at any later point — while the token is free, or taken by a later request."""
+    bw = rng.choice([0, 0, 1])
+    pool = [rand_token(rng) for _ in range(rng.randint(1, 2))]
+    ops = []
+    sent = []          # (tok, mid, tag) of confirmable responses already sent
+    mid = 42000
+    caller = 0
+
+    def copies():
+        if sent and rng.random() < 0.7:
+            for _ in range(rng.randint(1, 2)):
+                t, m, tg = rng.choice(sent)
+                ops.append("peer:con:%s:%d:%s" % (t, m, tg))
+    for _ in range(rng.randint(2, 5)):
+        caller += 1
+        tok = rng.choice(pool)
+        typ = rng.choice(["con", "non"])
+        ops.append("do:%d:%s:%s" % (caller, tok, typ))
+        copies()
+        tg = "r%d" % caller
+        k = rng.random()
+        if typ == "con" and k < 0.3:
+            ops.append("peer:pig:%s:@%d:%s" % (tok, caller, tg))
+        elif k < 0.85:
+            if typ == "con" and rng.random() < 0.6:
+                ops.append("peer:ack:-:@%d:0" % caller)
+                copies()
+            mid += 1
+            ops.append("peer:con:%s:%d:%s" % (tok, mid, tg))
+            sent.append((tok, mid, tg))
+        else:
+            mid += 1
+            ops.append("peer:non:%s:%d:%s" % (tok, mid, tg))
+        if rng.random() < 0.3:
+            copies()
+    ops.append("settle")
+    return "scn udp %d %s" % (bw, " ".join(ops))
+
+
 def gen_scenario(rng, racy=False, collide=False, siblings=False):
     tr = rng.choice(["udp", "udp", "tcp"])
     bw = rng.choice([0, 0, 1])
@@ -307,6 +375,13 @@ def gen_lines(ctx):
         L += sibling_templates(x, y, n)
     for _ in range(4000 if thorough else 500):
         L.append(gen_scenario(rng, siblings=True))
+    # retransmitted separate responses after the token was re-used
+    for n, x in enumerate(["aa", "c0030d01", "0102030405060708", "00"]):
+        L += retransmit_templates(x, n)
+    for n in range(40 if thorough else 6):
+        L += retransmit_templates(rand_token(rng), 10 + n, rand_token(rng))
+    for _ in range(3000 if thorough else 400):
+        L.append(gen_reuse(rng))
     for _ in range(6000 if thorough else 600):
         L.append(gen_racy(rng))
     for i in range(3000 if thorough else 450):
